@@ -802,6 +802,43 @@ def unit_table(unit):
                         agg.skipped["repeated-column-in-key"] += 1
                         continue
                     judge("table.setitem.2d", case, t, cs, ups, raised)
+    # ---- the row key is one of the table's OWN columns (a live mask / index column): the addressed rows are those the key names
+    # when the assignment starts - as with any list assignment, where the key is evaluated first
+    own = [
+        ({"flag": [True, False, True], "done": [True, True, True], "n": [1, 2, 3]}, "flag", False, ["flag", "done"]),
+        ({"flag": [True, False, True], "done": [True, True, True], "n": [1, 2, 3]}, "flag", 0, ["n"]),
+        ({"n": [1, 2, 3], "flag": [False, True, True]}, "flag", False, ["n", "flag"]),
+        ({"i": [2, 0, 1], "x": [10, 20, 30], "y": [1, 2, 3]}, "i", 0, ["i", "x", "y"]),
+        ({"x": [10, 20, 30], "i": [1, 1, 0]}, "i", 5, ["x", "i"]),
+    ]
+    for data, keycol, value, targets in own:
+        for form in ("t[key] = v", "t[key, :] = v", "t[key, names] = v", "t[copy of key] = v"):
+            t = Table({k: list(v) for k, v in data.items()})
+            key = t[keycol]
+            kvals = list(key._underlying)
+            rows = [i for i, b in enumerate(kvals) if b] if isinstance(kvals[0], bool) else [int(i) for i in kvals]
+            tcols = list(data) if form != "t[key, names] = v" else targets
+            want = {k: [value if (i in rows and k in tcols) else x for i, x in enumerate(v)] for k, v in data.items()}
+            agg.evals += 1; agg.transitions += 1; agg.states += 1; agg.nontrivial += 1; agg.compared += 1
+            case = {"table": data, "row_key_is_the_tables_own_column": keycol, "value": value, "form": form}
+            try:
+                if form == "t[key] = v":
+                    t[key] = value
+                elif form == "t[key, :] = v":
+                    t[key, :] = value
+                elif form == "t[key, names] = v":
+                    t[key, tuple(targets)] = value
+                else:
+                    t[key.copy()] = value
+            except Exception as e:
+                # whether a whole-table scalar write fits every column's kind is another matter: only completed writes are judged here
+                agg.skipped["own-column-key-write-refused-" + type(e).__name__] += 1
+                continue
+            got = {c._name: list(c._underlying) for c in t._underlying}
+            if any(not same_list(got[k], [x for x in want[k]]) and got[k] != want[k] for k in want):
+                agg.violation(V("table.setitem.own-column-key", "rows-addressed-by-a-key-that-changed-during-the-assignment", case, want, got))
+            else:
+                agg.outcomes["table-ok"] += 1
     agg.sample({"tables": [c for c in colsets[0]]})
     return agg
 
